@@ -129,11 +129,16 @@ class Scenario:
             outside.append(p)
             return "OUT:" + p
         last_write = None
+        self.by_k = {}
         for line in raw:
             f = line.split("\t")
             if len(f) < 3 or not f[0].isdigit():
                 continue
             name, p1, p2 = f[1], f[2], f[3] if len(f) > 3 else ""
+            try:
+                self.by_k[int(f[0])] = "%s %s" % (name, cls(p1) if name != "symlink" else cls(p2))
+            except Exception:
+                pass
             if name == "write":
                 c = cls(p1)
                 if c == "X" or last_write == c:
